@@ -96,7 +96,7 @@ def install_dispatch_probe():
         m = orig(types, lines)
         try:
             per_kind = {t.__qualname__: len(m[t]) for t in types}
-            _log().append({"probe": "dispatch", "kinds": [t.__qualname__ for t in types], "lines": lines,
+            _log().append({"probe": "dispatch", "kinds": [t.__qualname__ for t in types], "types": list(types), "lines": lines,
                            "data": per_kind, "warnings": env.LOG.total_for_thread() - before})
         except Exception:
             status["dispatch"] = "result not inspectable"
